@@ -158,6 +158,10 @@ def run_fi(inp):
     rows = np.array([Q.decf(r) for r in inp["rows"]]).reshape(tuple(inp["shape"]) + (inp["k"], n))
     with Capture(core, "kernel") as cap, Capture(np.linalg, "svd") as scap:
         out = utils.find_isometry(B, rows.copy(), inp["force_oriented"])
+    if len(cap.calls) != 1 or len(scap.calls) != 1:
+        # the library did not go through utils.kernel / numpy.linalg.svd exactly once (it is free to): only the contract of the
+        # result is checked, not the model's reconstruction from the captured kernel
+        return {"shape": list(out.shape), "out": L.units(out, 2).tolist(), "dets": np.linalg.det(L.units(out, 2)).tolist(), "nocapture": True}
     (args, ker), = cap.calls
     (_, (su, ss, svh)), = scap.calls
     ker = np.asarray(ker, dtype=float).swapaxes(-1, -2)      # rows
@@ -173,6 +177,8 @@ def lean_fi(inp, obs):
         return []
     ops = []
     n = sum(inp["sig"])
+    if obs.get("nocapture"):
+        return [{"op": "c18.gram", "form": inp["B"], "rows": L.fenc(np.array(o))} for o in obs["out"]]
     for r, k, kin, o, su, ss, svh in zip(inp["rows"], obs["ker"], obs["kin"], obs["out"], obs["u"], obs["s"], obs["vh"]):
         # the SVD contract assumed by findIsometry_isIso_svd, on the call find_isometry actually made
         ops.append({"op": "c18.kernel_residual", "A": kin, "n": n, "N": k, "u": su, "s": ss, "vh": svh})
@@ -191,6 +197,17 @@ def judge_fi(inp, obs, lr):
     n = sum(inp["sig"])
     if obs["shape"] != inp["shape"] + [n, n]:
         return {"expected": inp["shape"] + [n, n], "observed": obs["shape"], "tags": dict(tags, shape=True), "property_failure": True}
+    if obs.get("nocapture"):
+        for u, gram in enumerate(lr):
+            if "err" in gram:
+                return {"expected": "model answer", "observed": gram, "tags": dict(tags, driver_err=gram["err"])}
+            g = gram["ok"]
+            if max(float(F(g["offdiag"])), float(F(g["diag"]))) > 1e-8:
+                return {"expected": "M F Mᵀ diagonal with entries ±1 (exact residual ≤ 1e-8)", "observed": g, "tags": dict(tags, residual=True),
+                        "property_failure": True}
+            if inp["force_oriented"] and not obs["dets"][u] > 0:
+                return {"expected": "det > 0", "observed": obs["dets"][u], "tags": dict(tags, orientation=True), "property_failure": True}
+        return None
     if obs["kshape"] != inp["shape"] + [n - inp["k"], n]:
         return {"expected": "kernel basis with n-k rows", "observed": obs["kshape"], "tags": dict(tags, kernel_dim=True), "property_failure": True}
     for u in range(len(inp["rows"])):
@@ -265,19 +282,24 @@ def run_diag(inp):
     with Capture(core, "eigh") as cap:
         res = utils.diagonalize_form(B.copy(), order_eigenvalues=inp["mode"], reverse=inp["reverse"],
                                      with_inverse=inp["with_inverse"])
-    (_, (eigs, U)), = cap.calls
     if inp["with_inverse"]:
         W, Wi = res
     else:
         W, Wi = res, np.linalg.inv(res)
-    return {"shape": list(np.asarray(W).shape), "W": L.units(W, 2).tolist(), "Winv": L.units(Wi, 2).tolist(),
-            "eigs": L.units(eigs, 1).tolist(), "U": L.units(U, 2).tolist(), "tuple": isinstance(res, tuple)}
+    out = {"shape": list(np.asarray(W).shape), "W": L.units(W, 2).tolist(), "Winv": L.units(Wi, 2).tolist(), "tuple": isinstance(res, tuple)}
+    if len(cap.calls) == 1:       # otherwise (e.g. the library answered without calling eigh) only the contract of the result is checked
+        (_, (eigs, U)), = cap.calls
+        out.update(eigs=L.units(eigs, 1).tolist(), U=L.units(U, 2).tolist())
+    return out
 
 
 def lean_diag(inp, obs):
     if "exc" in obs:
         return []
     ops = []
+    if "U" not in obs:
+        return [{"op": "c18.diag_residual", "B": f, "W": L.fenc(np.array(W)), "Winv": L.fenc(np.array(Wi))}
+                for f, W, Wi in zip(inp["forms"], obs["W"], obs["Winv"])]
     for f, W, Wi, e, U in zip(inp["forms"], obs["W"], obs["Winv"], obs["eigs"], obs["U"]):
         ops.append({"op": "c18.diag_residual", "B": f, "W": L.fenc(np.array(W)), "Winv": L.fenc(np.array(Wi)),
                     "U": L.fenc(np.array(U)), "eigs": L.fenc(np.array(e))})
@@ -293,13 +315,14 @@ def judge_diag(inp, obs, lr):
     nn = inp["n"]
     if obs["shape"] != inp["shape"] + [nn, nn] or obs["tuple"] != inp["with_inverse"]:
         return {"expected": inp["shape"] + [nn, nn], "observed": obs["shape"], "tags": dict(tags, shape=True), "property_failure": True}
+    captured = "U" in obs
     for u in range(len(inp["forms"])):
-        rr, oo = lr[2 * u], lr[2 * u + 1]
+        rr, oo = (lr[2 * u], lr[2 * u + 1]) if captured else (lr[u], None)
         for res in (rr, oo):
-            if "err" in res:
+            if res is not None and "err" in res:
                 return {"expected": "model answer", "observed": res, "tags": dict(tags, driver_err=res["err"])}
         r = {k: (float(F(v)) if isinstance(v, str) else v) for k, v in rr["ok"].items()}
-        if max(r["eigh_diag"], r["eigh_orth"]) > 1e-9 * 40:
+        if captured and max(r["eigh_diag"], r["eigh_orth"]) > 1e-9 * 40:
             return {"expected": "eigh contract UᵀBU = diag eigs, UᵀU = 1", "observed": r, "tags": dict(tags, lapack_contract=True)}
         if max(r["offdiag"], r["diag"], r["inv"]) > 1e-9:
             return {"expected": "WᵀBW = diag(±1), W·Winv = 1 (exact residuals ≤ 1e-9)", "observed": r,
@@ -308,6 +331,8 @@ def judge_diag(inp, obs, lr):
         want = expected_signs(inp["sigs"][u], inp["mode"], inp["reverse"])
         if signs != want:
             return {"expected": {"signs": want}, "observed": {"signs": signs}, "tags": dict(tags, order=True), "property_failure": True}
+        if not captured:
+            continue
         # by value, modulo ties (np.argsort is not stable): column i of W is column perm[i] of U / sqrt|eig| for a
         # permutation perm along which the model's sort key takes the same values as along the model's order
         order, key = oo["ok"]["order"], [F(x) for x in oo["ok"]["key"]]
@@ -395,15 +420,19 @@ def run_kernel(inp):
             rows = np.asarray(N).swapaxes(-1, -2)
         else:
             rows = np.asarray(utils.orthogonal_complement(A.copy(), normalize=None))
-    (_, (u, s, vh)), = cap.calls
-    return {"shape": list(rows.shape), "N": [L.fenc(x) for x in L.units(rows, 2)],
-            "u": [L.fenc(x) for x in L.units(u, 2)], "s": [L.fenc(x) for x in L.units(s, 1)], "vh": [L.fenc(x) for x in L.units(vh, 2)]}
+    out = {"shape": list(rows.shape), "N": [L.fenc(x) for x in L.units(rows, 2)]}
+    if len(cap.calls) == 1:
+        (_, (u, s, vh)), = cap.calls
+        out.update(u=[L.fenc(x) for x in L.units(u, 2)], s=[L.fenc(x) for x in L.units(s, 1)], vh=[L.fenc(x) for x in L.units(vh, 2)])
+    return out
 
 
 def lean_kernel(inp, obs):
     if "exc" in obs:
         return []
     ops = []
+    if "vh" not in obs:        # no single svd call to capture: residuals of the returned basis only
+        return [{"op": "c18.kernel_residual", "A": a, "n": inp["n"], "N": N} for a, N in zip(inp["A"], obs["N"])]
     for a, N, u, s, vh in zip(inp["A"], obs["N"], obs["u"], obs["s"], obs["vh"]):
         ops.append({"op": "c18.svd_kernel", "m": inp["m"], "s": s, "tol": Q.qs(1e-8), "vh": vh})
         ops.append({"op": "c18.kernel_residual", "A": a, "n": inp["n"], "N": N, "u": u, "s": s, "vh": vh})
@@ -419,16 +448,17 @@ def judge_kernel(inp, obs, lr):
     if obs["shape"] != inp["shape"] + [kd, inp["n"]]:
         return {"expected": f"{kd} basis vectors of length {inp['n']}", "observed": obs["shape"], "tags": dict(tags, dimension=True),
                 "property_failure": True}
+    captured = "vh" in obs
     for u in range(len(inp["A"])):
-        sel, rr = lr[2 * u], lr[2 * u + 1]
+        sel, rr = (lr[2 * u], lr[2 * u + 1]) if captured else (None, lr[u])
         for res in (sel, rr):
-            if "err" in res:
+            if res is not None and "err" in res:
                 return {"expected": "model answer", "observed": res, "tags": dict(tags, driver_err=res["err"])}
         r = {k: (float(F(v)) if isinstance(v, str) else v) for k, v in rr["ok"].items()}
-        if max(r["svd_recon"], r["svd_orth"]) > 1e-9 * 40 or not r["svd_sorted"] or r["svd_len"] != min(inp["m"], inp["n"]):
+        if captured and (max(r["svd_recon"], r["svd_orth"]) > 1e-9 * 40 or not r["svd_sorted"] or r["svd_len"] != min(inp["m"], inp["n"])):
             return {"expected": "svd contract A = uΣvh, u uᵀ = vh vhᵀ = 1, s ≥ 0 descending, len(s) = min(m,n)", "observed": r,
                     "tags": dict(tags, lapack_contract=True)}
-        if sel["ok"] != obs["N"][u]:
+        if captured and sel["ok"] != obs["N"][u]:
             return {"expected": {"selected rows of vh": sel["ok"]}, "observed": obs["N"][u], "tags": dict(tags, selection=True)}
         if max(r["ann"], r["orth"]) > 1e-9 * 40 or r["count"] != kd:
             return {"expected": "A·N = 0, NᵀN = 1, n − rank columns (exact residuals)", "observed": r, "tags": dict(tags, residual=True),
